@@ -20,6 +20,7 @@ import (
 	cpumemtypes "github.com/projecteru2/core/resource/plugins/cpumem/types"
 	resourcetypes "github.com/projecteru2/core/resource/types"
 	"github.com/projecteru2/core/store"
+	"github.com/projecteru2/core/store/etcdv3"
 	"github.com/projecteru2/core/store/etcdv3/meta"
 	"github.com/projecteru2/core/types"
 )
@@ -171,9 +172,8 @@ type NodeSpec struct {
 	Bypass    bool              `json:"bypass"`
 }
 
-// AddNode adds a node through calcium.AddNode (host created first) and sets its liveness.
-func (cl *Cluster) AddNode(ctx context.Context, n NodeSpec) (*types.Node, error) {
-	NewHost(n.Name, n.Cores, n.Memory*10/8)
+// NodeResources is the add-node resource request of a node spec.
+func NodeResources(n NodeSpec) resourcetypes.Resources {
 	res := resourcetypes.RawParams{"cpu": n.Cores, "memory": n.Memory}
 	if n.Share != 0 {
 		res["share"] = n.Share
@@ -182,7 +182,13 @@ func (cl *Cluster) AddNode(ctx context.Context, n NodeSpec) (*types.Node, error)
 		res["numa-cpu"] = n.NUMACPU
 		res["numa-memory"] = n.NUMAMem
 	}
-	node, err := cl.C.AddNode(ctx, &types.AddNodeOptions{Nodename: n.Name, Endpoint: Prefix + n.Name, Podname: n.Pod, Labels: n.Labels, Resources: resourcetypes.Resources{"cpumem": res}})
+	return resourcetypes.Resources{"cpumem": res}
+}
+
+// AddNode adds a node through calcium.AddNode (host created first) and sets its liveness.
+func (cl *Cluster) AddNode(ctx context.Context, n NodeSpec) (*types.Node, error) {
+	NewHost(n.Name, n.Cores, n.Memory*10/8)
+	node, err := cl.C.AddNode(ctx, &types.AddNodeOptions{Nodename: n.Name, Endpoint: Prefix + n.Name, Podname: n.Pod, Labels: n.Labels, Resources: NodeResources(n)})
 	if err != nil {
 		return nil, err
 	}
@@ -608,3 +614,16 @@ func (cl *Cluster) WaitQuiet(patience time.Duration) bool {
 // QuietWindow is how long the event log must stay unchanged (with nothing in flight and no lock held)
 // before the cluster counts as quiescent.
 var QuietWindow = 15 * time.Millisecond
+
+// InstallKVShim puts a recording / schedulable decorator around the etcd store's meta.KV (hook-free: Mercury
+// embeds the exported interface field). It returns false when the metadata store is not the etcd one.
+func (cl *Cluster) InstallKVShim() bool {
+	m, ok := cl.Raw.(*etcdv3.Mercury)
+	if !ok {
+		return false
+	}
+	if _, already := m.KV.(*KVShim); !already {
+		m.KV = &KVShim{Real: m.KV, B: cl.B, Inst: cl.Inst}
+	}
+	return true
+}
